@@ -15,7 +15,7 @@ RULE = ("C01's systematic sweep and random histories with the fault replaced by 
         "interruption reaches the caller as itself (never swallowed, not even under ignore_exc); right after it no "
         "pooled connection is checked out; C01's reply-ownership rules hold for all later calls (no cross-call read, "
         "no unread reply on an open connection, no read that can never be satisfied); a pool of size 1 serves the next "
-        "call; the follow-up store/fetch give the right answers. The sweep is repeated with the server given as a UNIX socket path (plain and with the unix: prefix). Re-entrant interruptions: a pooled call nested inside another on the same PooledClient (a serializer consulting the cache), the interruption raised from every socket event of the two exchanges - afterwards no connection is checked out, no connected socket lives outside the pool, and the object serves further calls. Non-trivial: the interruption hit after sendall and "
+        "call; the follow-up store/fetch give the right answers. The sweep is repeated with the server given as a UNIX socket path (plain and with the unix: prefix), and on objects that were closed (close / disconnect_all / quit) and are in use again. Re-entrant interruptions: a pooled call nested inside another on the same PooledClient (a serializer consulting the cache), the interruption raised from every socket event of the two exchanges - afterwards no connection is checked out, no connected socket lives outside the pool, and the object serves further calls. Non-trivial: the interruption hit after sendall and "
         "before the reply was fully read (taken from the log), and a later call used the same object.")
 MANIFEST = {
     "category": "fault_enumeration",
@@ -92,6 +92,22 @@ def unix_sweep_cases(tier, seed):
             if case["cfg"].get("ignore_exc") and path.startswith("unix:"):
                 continue
             yield dict(case, unix=path)
+
+
+def after_close_sweep_cases(tier, seed):
+    """the object has been closed (close / disconnect_all / quit) and is in use again when the interruption strikes"""
+    lib = [r for r in faultlab.op_library() if r["op"] in ("get", "set", "get_many", "incr", "delete_many", "set_many", "gats", "version")][::3]
+    for how in ("close", "disconnect_all", "quit"):
+        for case in c01.sweep_cases(tier, seed, interrupts=True, lib=lib):
+            if case["kind"].startswith("hash") and how == "quit":
+                continue
+            pre = [{"op": {"op": "get", "key": "warmup"}}, {"op": {"op": how}}]
+            if case["calls"][0]["op"].get("key") == "warmup":
+                pre = pre + [{"op": {"op": "get", "key": "warmup"}}]
+                rest = case["calls"][1:]
+            else:
+                rest = case["calls"]
+            yield dict(case, calls=pre + rest)
 
 
 def idle_sweep_cases(tier, seed):
@@ -171,6 +187,7 @@ def history_strategy(tier):
 PARTS = [
     Part("interruption-sweep", "enum", check, cases=sweep_cases, exhaustive=True),
     Part("unix-socket-interruptions", "enum", check, cases=unix_sweep_cases, exhaustive=True),
+    Part("after-close-interruptions", "enum", check, cases=after_close_sweep_cases, exhaustive=True),
     Part("idle-expiry-interruptions", "enum", check, cases=idle_sweep_cases, exhaustive=True),
     Part("input-error-then-interruption", "enum", check, cases=error_then_interrupt_cases, exhaustive=True),
     Part("re-entrant-interruptions", "enum", check_reentrant, cases=reentrant_cases, exhaustive=True),
